@@ -284,7 +284,8 @@ def _do_run(args):
     cfg, tid, want_resid, want_rf = args
     env.import_bluebonnet()
     try:
-        ev, raw, obj, fp, tab, time, sched = sdrv.run_config(cfg, tid, want_residual=want_resid)
+        with env.time_limit(600, "the simulation"):
+            ev, raw, obj, fp, tab, time, sched = sdrv.run_config(cfg, tid, want_residual=want_resid)
         if want_rf:
             rfe, rraw = sdrv.rf_events(cfg, tid, ev[-1]["seq"], obj, fp, tab, time, sched, cfg.get("ladder_nx"))
             ev += rfe
